@@ -8,7 +8,7 @@ mkdir -p /tmp/cs
 git -C /repo worktree remove --force $WT 2>/dev/null
 git -C /repo worktree add -q --detach $WT HEAD || exit 2
 cd $WT && git apply $SD/patch.diff || exit 2
-PYTHONPATH=$WT OMP_NUM_THREADS=8 /venv/bin/python -m pytest -q -rfE -p no:cacheprovider --timeout=900 "$@" > $SD/suite_patched_retry.log 2>&1; RC=$?
+PYTHONPATH=$WT OMP_NUM_THREADS=3 MKL_NUM_THREADS=3 OPENBLAS_NUM_THREADS=3 /venv/bin/python -m pytest -q -rfE -p no:cacheprovider --timeout=900 "$@" > $SD/suite_patched_retry.log 2>&1; RC=$?
 echo "retry of the failed tests alone ($*): rc=$RC: $(tail -n 1 $SD/suite_patched_retry.log)" >> $SD/confirm.txt
 if [ $RC -eq 0 ]; then sed -i 's/suite_patched_rc=1/suite_patched_rc=0(after-retry)/' $SD/confirm.txt; fi
 cd /; git -C /repo worktree remove --force $WT
